@@ -293,7 +293,18 @@ func (p *grpcConnectionPool) newConnection(ctx context.Context, target *route.Ta
 	conn, err := grpc.DialContext(ctx, target.URL.Host, opts...)
 
 	if err == nil {
-		p.Set(target, conn)
+		// Another call may have connected to the same backend in the
+		// meantime. Keep one connection per backend: a second one would
+		// never be reused and never be closed when the backend leaves.
+		p.lock.Lock()
+		key := makeGRPCTargetKey(target)
+		if cur := p.connections[key]; cur != nil && cur.GetState() != connectivity.Shutdown {
+			p.lock.Unlock()
+			conn.Close()
+			return cur, nil
+		}
+		p.connections[key] = conn
+		p.lock.Unlock()
 	}
 
 	return conn, err
